@@ -32,15 +32,7 @@ Print Assumptions C42_exact_seq.
 Theorem C42_valid_spec : forall c r, valid c r = true <->
   rpc_address r <> None /\ r_host_id r <> None /\ r_dc r <> None /\ r_rack r <> None /\
   (token_meta c = true -> exists t ts, r_tokens r = Some (t :: ts)).
-Proof.
-  intros c r. unfold valid. rewrite !andb_true_iff, orb_true_iff, negb_true_iff. unfold is_some, nonempty.
-  destruct (rpc_address r), (r_host_id r), (r_dc r), (r_rack r), (token_meta c), (r_tokens r) as [[|t ts]|];
-    split; intros H; repeat split; try congruence; try tauto;
-    try (intros _; eexists; eexists; reflexivity);
-    try (destruct H as [[[[? ?] ?] ?] [?|?]]; congruence);
-    try (destruct H as [? [? [? [? H]]]]; try congruence; destruct (H eq_refl) as [? [? ?]]; congruence);
-    try (right; reflexivity); try (left; reflexivity).
-Qed.
+Proof. exact valid_spec. Qed.
 Print Assumptions C42_valid_spec.
 
 (* newly seen hosts are announced exactly once to listeners and to the policy; nobody else is *)
